@@ -762,6 +762,14 @@ func c14Exception(c *Ctx, s mapRangeSite, problems []string) (string, bool) {
 		}
 		return "rows are written out to slots offset[row]+col that no other row occupies (first-fit placement), so the order of rows is irrelevant; the body is exactly the paired stores checked in C05.c", true
 	case strings.HasPrefix(fn, "LALR.(*LALR1).") && (strings.HasSuffix(s.path, ".DRSet") || strings.HasSuffix(s.path, ".ReadSet")):
+		// the premise is about the ORDER in which the transitions are collected; it says nothing for a loop that
+		// stops early, keeps a last writer or stores at a foreign index — there the key order selects WHICH
+		// transition is affected
+		for _, p := range problems {
+			if !strings.Contains(p, "is filled in iteration order") {
+				return "the exception covers collecting transitions in key order only, and this loop does more: " + p, false
+			}
+		}
 		return c14LookaheadPremise(c)
 	case fn == "Grammar.(*Grammar).CalculateCanTerminate" && strings.HasSuffix(s.path, ".VnSet"):
 		// premise: callers use the result only through len() and PrintInfLoop, which only prints
